@@ -598,4 +598,128 @@ theorem kExportT_rep {a : Arena V} {st st' : St V} (h : RepStG a st) (hw : WF st
       obtain ⟨_, _, _, rfl⟩ := hT
       exact htr1
 
+
+/-! ### map / set: every callback of `insert` and `delete` sees the untouched arena -/
+
+theorem insertLoopT_erase : ∀ (fuel : Nat) (a : Arena V) (e : Ent V) (i : Nat) (tr : List (AEv V)),
+    (Arena.insertLoopT fuel a e i tr).map (·.1) = Arena.insertLoop fuel a e i := by
+  intro fuel
+  induction fuel with
+  | zero => intro a e i tr; rfl
+  | succ fuel ih =>
+    intro a e i tr
+    simp only [Arena.insertLoopT, Arena.insertLoop, Option.bind_eq_bind]
+    cases a.node i with
+    | none => rfl
+    | some n =>
+      simp only [Option.bind_some]
+      by_cases hlt : e.key < n.ent.key
+      · simp only [hlt, if_true]
+        by_cases hl : (n.left == EMPTY) = true
+        · simp only [hl, if_true, Option.map_map]; cases a.insertAs e i true <;> rfl
+        · simp only [hl, Bool.false_eq_true, if_false]; exact ih _ _ _ _
+      · simp only [hlt, if_false]
+        by_cases hr : (n.right == EMPTY) = true
+        · simp only [hr, if_true, Option.map_map]; cases a.insertAs e i false <;> rfl
+        · simp only [hr, Bool.false_eq_true, if_false]; exact ih _ _ _ _
+
+theorem insertT_erase (a : Arena V) (e : Ent V) : (a.insertT e).map (·.1) = a.insert e := by
+  simp only [Arena.insertT, Arena.insert]
+  by_cases h : (a.root == EMPTY) = true
+  · simp only [h, if_true, Option.map_map]; cases a.insertRoot e <;> rfl
+  · simp only [h, Bool.false_eq_true, if_false]; exact insertLoopT_erase _ _ _ _ _
+
+theorem findIndexT_erase : ∀ (fuel : Nat) (a : Arena V) (key : Int) (i : Nat) (tr : List (AEv V)),
+    (Arena.findIndexT fuel a key i tr).map (·.1) = Arena.findIndex fuel a key i := by
+  intro fuel
+  induction fuel with
+  | zero => intro a key i tr; rfl
+  | succ fuel ih =>
+    intro a key i tr
+    simp only [Arena.findIndexT, Arena.findIndex]
+    by_cases hi : (i == EMPTY) = true
+    · simp [hi]
+    · simp only [hi, Bool.false_eq_true, if_false, Option.bind_eq_bind]
+      cases a.node i with
+      | none => rfl
+      | some n =>
+        simp only [Option.bind_some]
+        by_cases h1 : key < n.ent.key
+        · simp only [h1, if_true]; exact ih _ _ _ _
+        · simp only [h1, if_false]
+          by_cases h2 : n.ent.key < key
+          · simp only [h2, if_true]; exact ih _ _ _ _
+          · simp [h2]
+
+theorem deleteT_erase (a : Arena V) (key : Int) : (a.deleteT key).map (·.1) = a.delete key := by
+  simp only [Arena.deleteT, Arena.delete, Option.bind_eq_bind]
+  rw [← findIndexT_erase _ a key a.root []]
+  cases Arena.findIndexT (a.nodes.size + 1) a key a.root [] with
+  | none => rfl
+  | some x =>
+    simp only [Option.bind_some, Option.map_some]
+    by_cases h : (x.1 != EMPTY) = true
+    · simp only [h, if_true, Option.map_map]; cases a.deleteIndex x.1 <;> rfl
+    · simp [h]
+
+theorem insertLoopT_pre : ∀ (fuel : Nat) (a : Arena V) (e : Ent V) (i : Nat) (tr : List (AEv V))
+    {a' : Arena V} {tr' : List (AEv V)}, Arena.insertLoopT fuel a e i tr = some (a', tr') →
+    (∀ ae ∈ tr, ae.arena = a ∧ ae.kind = .cmp) → ∀ ae ∈ tr', ae.arena = a ∧ ae.kind = .cmp := by
+  intro fuel
+  induction fuel with
+  | zero => intro a e i tr a' tr' h; simp [Arena.insertLoopT] at h
+  | succ fuel ih =>
+    intro a e i tr a' tr' h htr
+    simp only [Arena.insertLoopT, Option.bind_eq_bind] at h
+    cases hn : a.node i with
+    | none => simp [hn] at h
+    | some n =>
+      simp only [hn, Option.bind_some] at h
+      have htr1 : ∀ ae ∈ (⟨.cmp, n.ent, a⟩ :: tr : List (AEv V)), ae.arena = a ∧ ae.kind = .cmp := by
+        intro ae hae
+        rcases List.mem_cons.mp hae with rfl | hae
+        · exact ⟨rfl, rfl⟩
+        · exact htr ae hae
+      by_cases hlt : e.key < n.ent.key
+      · simp only [hlt, if_true] at h
+        by_cases hl : (n.left == EMPTY) = true
+        · simp only [hl, if_true, Option.map_eq_some_iff, Prod.mk.injEq] at h
+          obtain ⟨_, _, _, rfl⟩ := h; exact htr1
+        · simp only [hl, Bool.false_eq_true, if_false] at h; exact ih _ _ _ _ h htr1
+      · simp only [hlt, if_false] at h
+        by_cases hr : (n.right == EMPTY) = true
+        · simp only [hr, if_true, Option.map_eq_some_iff, Prod.mk.injEq] at h
+          obtain ⟨_, _, _, rfl⟩ := h; exact htr1
+        · simp only [hr, Bool.false_eq_true, if_false] at h; exact ih _ _ _ _ h htr1
+
+theorem findIndexT_pre : ∀ (fuel : Nat) (a : Arena V) (key : Int) (i : Nat) (tr : List (AEv V))
+    {j : Nat} {tr' : List (AEv V)}, Arena.findIndexT fuel a key i tr = some (j, tr') →
+    (∀ ae ∈ tr, ae.arena = a ∧ ae.kind = .cmp) → ∀ ae ∈ tr', ae.arena = a ∧ ae.kind = .cmp := by
+  intro fuel
+  induction fuel with
+  | zero => intro a key i tr j tr' h; simp [Arena.findIndexT] at h
+  | succ fuel ih =>
+    intro a key i tr j tr' h htr
+    simp only [Arena.findIndexT] at h
+    by_cases hi : (i == EMPTY) = true
+    · simp only [hi, if_true, Option.some.injEq, Prod.mk.injEq] at h
+      obtain ⟨_, rfl⟩ := h; exact htr
+    · simp only [hi, Bool.false_eq_true, if_false, Option.bind_eq_bind] at h
+      cases hn : a.node i with
+      | none => simp [hn] at h
+      | some n =>
+        simp only [hn, Option.bind_some] at h
+        have htr1 : ∀ ae ∈ (⟨.cmp, n.ent, a⟩ :: tr : List (AEv V)), ae.arena = a ∧ ae.kind = .cmp := by
+          intro ae hae
+          rcases List.mem_cons.mp hae with rfl | hae
+          · exact ⟨rfl, rfl⟩
+          · exact htr ae hae
+        by_cases h1 : key < n.ent.key
+        · simp only [h1, if_true] at h; exact ih _ _ _ _ h htr1
+        · simp only [h1, if_false] at h
+          by_cases h2 : n.ent.key < key
+          · simp only [h2, if_true] at h; exact ih _ _ _ _ h htr1
+          · simp only [h2, if_false, Option.some.injEq, Prod.mk.injEq] at h
+            obtain ⟨_, rfl⟩ := h; exact htr1
+
 end ITree
